@@ -29,7 +29,10 @@ NODE = 'dtn://me/'
 PATTERNS = ['^dtn://a/', '^dtn://a/x', '^dtn://', '.*', r'^ipn:1\.', '^dtn://b/', '^ipn:', '^dtn://me/svc']
 ACTIONS = ['deliver', 'forward', 'delete']
 DESTS = [['dtn', '//a/'], ['dtn', '//a/x'], ['dtn', '//b/y'], ['ipn', 1, 2], ['ipn', 2, 1], ['dtn', '//me/'],
-         ['dtn', '//me/svc'], ['dtn', '//zzz/q'], ['dtn', '//me/safe'], ['dtn', '//me/sand'], ['ipn', 100, 1]]
+         ['dtn', '//me/svc'], ['dtn', '//zzz/q'], ['dtn', '//me/safe'], ['dtn', '//me/sand'], ['ipn', 100, 1],
+         # (endpoints that also occur as sources: a node this one has heard from - e.g. through the SAND neighbour
+         # group - is routed to like any other destination)
+         ['dtn', '//src1/'], ['ipn', 9, 1]]
 # endpoints that the SAFE and SAND applications of the node register for themselves (their own routing steps
 # claim these destinations, as the administrative application claims the node ID)
 APPS = {'safe': {'endpoint': 'dtn://me/safe'}, 'sand': {'endpoint': 'dtn://me/sand'}}
